@@ -404,6 +404,7 @@ fn dbscan_fp<F: Float + Bits, D: Distance<F>, N: NearestNeighbour + Clone>(dist:
 }
 
 fn reg_dbscan<D: Distance<f64> + 'static, N: NearestNeighbour + Clone + 'static>(r: &mut Registry, name: &str, dist: D, nn: N) {
+    let dist = crate::fault::FaultyDist(dist);
     r.scenario(name, CL, Kind::Claim, false, move |p| {
         let mut f = Fingerprint::new();
         dbscan_fp(dist.clone(), nn.clone(), &db_train(p), &mut f);
@@ -607,6 +608,7 @@ fn optics_fp<F: Float + Bits, D: Distance<F>, N: NearestNeighbour + Clone>(dist:
 }
 
 fn reg_optics<D: Distance<f64> + 'static, N: NearestNeighbour + Clone + 'static>(r: &mut Registry, name: &str, dist: D, nn: N) {
+    let dist = crate::fault::FaultyDist(dist);
     r.scenario(name, CL, Kind::Claim, false, move |p| {
         let mut f = Fingerprint::new();
         optics_fp(dist.clone(), nn.clone(), &op_train(p), &mut f);
@@ -664,6 +666,7 @@ fn op_small(p: &P) -> Array2<f64> {
     patches(&mut p.rng(33), p.pick(30, 120, 300), 2)
 }
 fn fp_optics_params(v: &OpP, p: &P, f: &mut Fingerprint) {
+    f.text("debug", &format!("{v:?}"));
     match v.check_ref() {
         Ok(valid) => {
             f.one("check_ok", true);
@@ -691,6 +694,11 @@ fn register_optics(r: &mut Registry) {
     r.model::<OpP>("optics_params", CL, PT, Some((Kind::Claim, false)), build_optics_params, fp_optics_params, Some(|a, b| a == b));
     r.model::<OpP>("optics_params_default", CL, PT, Some((Kind::Claim, false)), build_optics_params_default, fp_optics_params, Some(|a, b| a == b));
     r.model::<OpP>("optics_params_invalid_tolerance", CL, PT, None, build_optics_params_invalid_tol, fp_optics_params, Some(|a, b| a == b));
+    // non-finite tolerances: -inf is rejected by `check`, NaN slips through it; both are values a
+    // parameter set can hold and must come back as they went
+    r.model::<OpP>("optics_params_tolerance_neg_inf", CL, PT, None, |p| build_optics_params(p).tolerance(f64::NEG_INFINITY), fp_optics_params, Some(|a, b| a == b));
+    r.model::<OpP>("optics_params_tolerance_nan", CL, PT, None, |p| build_optics_params(p).tolerance(f64::NAN), fp_optics_params, Some(|a, b| a == b));
+    r.model::<OpP>("optics_params_tolerance_tiny", CL, PT, None, |p| build_optics_params(p).tolerance(f64::MIN_POSITIVE / 4.0), fp_optics_params, Some(|a, b| a == b));
     r.model::<OpP>("optics_params_invalid_min_points", CL, PT, None, build_optics_params_invalid_mp, fp_optics_params, Some(|a, b| a == b));
     r.model::<OpV>(
         "optics_valid_params",
@@ -1011,6 +1019,8 @@ fn nn_leafs(p: &P) -> &'static [Option<usize>] {
 }
 
 fn reg_nn<N: NearestNeighbour + 'static, D: Distance<f64> + 'static>(r: &mut Registry, name: &str, algo: N, dist: D) {
+    // the distance function is a caller-supplied callback: instrumented for fault injection
+    let dist = crate::fault::FaultyDist(dist);
     r.scenario(name, NN, Kind::Claim, false, move |p| {
         let mut f = Fingerprint::new();
         let x = nn_train(p);
@@ -1021,6 +1031,7 @@ fn reg_nn<N: NearestNeighbour + 'static, D: Distance<f64> + 'static>(r: &mut Reg
     });
 }
 fn reg_nn32<N: NearestNeighbour + 'static, D: Distance<f32> + 'static>(r: &mut Registry, name: &str, algo: N, dist: D) {
+    let dist = crate::fault::FaultyDist(dist);
     r.scenario(name, NN, Kind::Claim, false, move |p| {
         let mut f = Fingerprint::new();
         let x = nn_train(p);
